@@ -211,6 +211,7 @@ Definition bucket_ok (bk : bucket) : Prop := Forall entry_ok bk.
 Definition entry_step (pol : policy) (now : Z) (e : N * sharetype * file_state) : N * sharetype * file_state :=
   match e with
   | (n, t, Gone) => (n, t, Gone)
+  | (n, t, Unreadable) => (n, t, Unreadable)
   | (n, t, Present ls) => (n, t, sr_state (process_share pol now t ls))
   end.
 
@@ -218,14 +219,15 @@ Lemma process_bucket_map pol now bk :
   bucket_ok bk -> process_bucket pol now bk = (map (entry_step pol now) bk, false).
 Proof.
   induction 1 as [|[[n t] st] bk He _ IH]; cbn; [reflexivity|].
-  destruct st as [ls|].
+  destruct st as [ls| |].
   - cbn in He. destruct (process_share_nodup pol now t ls He) as (R & _). rewrite R, IH. reflexivity.
+  - rewrite IH. reflexivity.
   - rewrite IH. reflexivity.
 Qed.
 
 Lemma entry_step_ok pol now e : entry_ok e -> entry_ok (entry_step pol now e).
 Proof.
-  destruct e as [[n t] [ls|]]; cbn; [|trivial]. intros ND.
+  destruct e as [[n t] [ls| |]]; cbn; [|trivial|trivial]. intros ND.
   destruct (process_share_nodup pol now t ls ND) as (_ & S). rewrite S.
   destruct (p_enabled pol); [|exact ND].
   destruct (filter (lease_expired pol now t) ls); [exact ND|].
@@ -238,9 +240,29 @@ Proof. induction 1; cbn; constructor; auto using entry_step_ok. Qed.
 
 Lemma disabled_bucket pol now bk : p_enabled pol = false -> process_bucket pol now bk = (bk, false).
 Proof.
-  intros E. induction bk as [|[[n t] [ls|]] bk IH]; cbn; [reflexivity| |].
+  intros E. induction bk as [|[[n t] [ls| |]] bk IH]; cbn; [reflexivity| | |].
   - destruct (disabled_share pol now t ls E) as (S & R). rewrite R, S, IH. reflexivity.
   - rewrite IH. reflexivity.
+  - rewrite IH. reflexivity.
+Qed.
+
+(* Unreadable share files are recorded and skipped: they never make
+   process_bucket raise, stay as they are, and are exactly the entries reported
+   as corrupt. *)
+Lemma unreadable_not_fatal_ok pol now bk :
+  bucket_ok bk ->
+  snd (process_bucket pol now bk) = false /\
+  (forall j n t, nth_error bk j = Some (n, t, Unreadable) ->
+     nth_error (fst (process_bucket pol now bk)) j = Some (n, t, Unreadable)) /\
+  corrupt_shares pol now bk =
+    Some (map (fun e => fst (fst e)) (filter (fun e => match snd e with Unreadable => true | _ => false end) bk)).
+Proof.
+  intros Ok. rewrite (process_bucket_map pol now bk Ok). split; [reflexivity|]. split.
+  - intros j n t H. cbn [fst]. rewrite nth_error_map, H. reflexivity.
+  - induction Ok as [|[[n t] [ls| |]] bk He _ IH]; cbn; [reflexivity| | |].
+    + cbn in He. destruct (process_share_nodup pol now t ls He) as (R & _). rewrite R. exact IH.
+    + exact IH.
+    + rewrite IH. reflexivity.
 Qed.
 
 Lemma disabled_replay pol clock : p_enabled pol = false ->
@@ -268,6 +290,7 @@ Section Cycle.
   Definition doomed (st : file_state) : Prop :=
     match st with
     | Gone => True
+    | Unreadable => False
     | Present ls => ls <> [] /\ forall l, In l ls -> expired_by_rule (p_mode pol) now0 l
     end.
 
@@ -281,7 +304,7 @@ Section Cycle.
   Proof.
     intros (Ok & st & Hn & Hd). rewrite (process_bucket_map _ _ _ Ok). cbn [fst].
     split; [apply bucket_step_ok; exact Ok|].
-    rewrite nth_error_map, Hn. cbn. destruct st as [ls|]; [|reflexivity].
+    rewrite nth_error_map, Hn. cbn. destruct st as [ls| |]; [|reflexivity|contradiction].
     destruct Hd as (Ne & All).
     assert (ND : NoDup (map l_cancel ls)).
     { unfold bucket_ok in Ok. rewrite Forall_forall in Ok. apply (Ok _ (nth_error_In _ _ Hn)). }
